@@ -113,7 +113,7 @@ func recipeEv(rc *recipe) Ev {
 }
 
 // a multi-exponentiation of the sizes driven here takes well under a second; 100x that is the limit
-const msmWatchdog = 25 * time.Second
+const msmWatchdog = 90 * time.Second
 
 var msmHangs int
 
